@@ -51,8 +51,8 @@ add("C04",
     "DESIGN.md §5 C04", bounded="index")
 
 add("C05",
-    "Proved: Parse/parseJSON and all nine type parsers return (object,nil) or (nil,error) (result shape) with every nil-dereference / index / type-assertion obligation on the modelled paths discharged; loop measures for the whitespace loop and every counted loop under contract; recursion measures for the compressed-index searches, ringContainsRing and Circle.Contains/Intersects; nil-guard obligations of Empty/Rect/Valid/NumPoints of all leaf kinds and collections; thin (safety-only) contracts for the remaining query methods of every kind (DistancePoint/Rect/Line/Poly, Distance(obj), Center, accessors: generated by tools/gen_safety_contracts.py, 53 methods) and for the JSON writers (AppendJSON/JSON/String/MarshalJSON of Point, SimplePoint, Polygon, Rect, Circle, Feature, MultiPoint, MultiPolygon, GeometryCollection, FeatureCollection and the helpers appendJSONPoint/Series/Extra) under the ownership invariant of the extra coordinate values (WriteInv). Every contract function's safety obligations (bounds, nil, type assertion, division) are part of its proof. Termination of the recursion cycle Parse -> parseJSON -> parseJSONFeature/GeometryCollection/FeatureCollection -> Parse is proved with lexicographic measures over the text length (relative to A-GJSON: a member's raw text is strictly shorter than its parent's). NOT proved: Line.ContainsLine (trusted; known hang F3 found by the bounded lineline suite), recursion through interface dispatch (ForEach/Contains over the object tree: axiom ATree), polynomial time.",
-    "Partial. gjson/pretty/sjson/rtree/strconv are external assumed contracts (A-GJSON, A-RTREE). parseJSONLineStringCoords/parseJSONPolygonCoords trusted. Not under contract: LineString/MultiLineString writers (a *Line handed out as Series is outside the Series model), EmptySpatial (zero-field struct), the index builders (rTree/rRect insert/split, qNode: trusted, bounded index suite). WriteInv is established by the constructors under contract; for parsed objects it is a stated precondition. The bounded lineline suite (watchdog per call) stands in for Line.ContainsLine termination and reports F3 as a known finding.",
+    "Proved: Parse/parseJSON and all nine type parsers return (object,nil) or (nil,error) (result shape) with every nil-dereference / index / type-assertion obligation on the modelled paths discharged; loop measures for the whitespace loop and every counted loop under contract; recursion measures for the compressed-index searches, ringContainsRing and Circle.Contains/Intersects; nil-guard obligations of Empty/Rect/Valid/NumPoints of all leaf kinds and collections; thin (safety-only) contracts for the remaining query methods of every kind (DistancePoint/Rect/Line/Poly, Distance(obj), Center, accessors: generated by tools/gen_safety_contracts.py, 53 methods) and for the JSON writers (AppendJSON/JSON/String/MarshalJSON of Point, SimplePoint, LineString, Polygon, Rect, Circle, Feature, MultiPoint, MultiLineString, MultiPolygon, GeometryCollection, FeatureCollection and the helpers appendJSONPoint/Series/Extra) under the ownership invariant of the extra coordinate values (WriteInv). Every contract function's safety obligations (bounds, nil, type assertion, division) are part of its proof. Termination of the recursion cycle Parse -> parseJSON -> parseJSONFeature/GeometryCollection/FeatureCollection -> Parse is proved with lexicographic measures over the text length (relative to A-GJSON: a member's raw text is strictly shorter than its parent's). NOT proved: Line.ContainsLine (trusted; known hang F3 found by the bounded lineline suite), recursion through interface dispatch (ForEach/Contains over the object tree: axiom ATree), polynomial time.",
+    "Partial. gjson/pretty/sjson/rtree/strconv are external assumed contracts (A-GJSON, A-RTREE). parseJSONLineStringCoords/parseJSONPolygonCoords trusted. Not under contract: EmptySpatial (zero-field struct), the promoted collection.AppendJSON (never called), the index builders (rTree/rRect insert/split, qNode: trusted, bounded index suite). WriteInv is established by the constructors under contract; for parsed objects it is a stated precondition. The bounded lineline suite (watchdog per call) stands in for Line.ContainsLine termination and reports F3 as a known finding.",
     "DESIGN.md §5 C05", bounded="lineline,index")
 
 add("C07",
